@@ -438,29 +438,48 @@ def compare(case, mline, real):
     return f"unparsed model line {mline[:60]}"
 
 
+GRAVE = ("something ran", "returned an object although", "no verdict")
+SERIOUS = ("after the analysis pass", "not the bytes analysed", "stock pickle.load", "differ")
+
+
+def gravity(why):
+    if any(g in why for g in GRAVE):
+        return 0
+    if any(g in why for g in SERIOUS):
+        return 1
+    return 2
+
+
 def oracle(case, real):
-    """C02 stated directly on the observation (no model).  None = holds."""
+    """C02 stated directly on the observation (no model).  None = holds; else the gravest reason."""
+    reasons = oracle_all(case, real)
+    return min(reasons, key=gravity) if reasons else None
+
+
+def oracle_all(case, real):
     if real["r"] == "CHILD-ERROR":
-        return None
+        return []
+    out = []
     thr = case["thr"]
     arming = case["arming"]
     for ph, what in (real.get("log") or []):
         if ph != "parse":
-            return f"the caller's stream was accessed ({what}) after the analysis pass"
+            out.append(f"the caller's stream was accessed ({what}) after the analysis pass")
+            break
     if real["load_calls"] != 0:
-        return "the stock pickle.load(file) ran on the caller's stream"
+        out.append("the stock pickle.load(file) ran on the caller's stream")
     ref = real.get("ref")
     prefix = case["prefix"]
     if ref is None or ref["verdict"][0] != "ok":
         why = "no complete pickle" if ref is None else f"{ref['verdict'][0]} ({ref['verdict'][1]})"
         if real["r"] == "RET":
-            return f"returned an object although there is no verdict: {why}"
+            out.append(f"returned an object although there is no verdict: {why}")
         if not nothing_ran(real):
-            return (f"no verdict ({why}) yet something ran: find_class={real['events']} sink={real['sink']} "
-                    f"unpickled={len(real['loads'])}")
+            out.append(f"no verdict ({why}) yet something ran: find_class={real['events']} sink={real['sink']} "
+                       f"unpickled={len(real['loads'])}")
         if real["r"] == "UNSAFE" and ref is None:
-            return "UnsafeFileError without a verdict"
-        return None
+            out.append("UnsafeFileError without a complete pickle to give a verdict on")
+        return out
     name = ref["verdict"][1]
     rank = DOC.index(name)
     # accepted severity: the argument for the direct loader; LIKELY_SAFE for the global hook; for the
@@ -469,30 +488,36 @@ def oracle(case, real):
     may_refuse = rank > (thr if arming in ("direct", "direct_pos") else 0)
     if real["r"] == "UNSAFE":
         if not may_refuse:
-            return f"UnsafeFileError although the verdict {name} is within the accepted severity {DOC[thr]}"
+            out.append(f"UnsafeFileError although the verdict {name} is within the accepted severity {DOC[thr]}")
         if real.get("sev") != name:
-            return f"UnsafeFileError carries severity {real.get('sev')}, the verdict is {name}"
-        if real.get("info") != ref.get("to_dict"):
-            return "UnsafeFileError.info is not the verdict's to_dict()"
+            out.append(f"UnsafeFileError carries severity {real.get('sev')}, the verdict is {name}")
+        elif real.get("info") != ref.get("to_dict"):
+            out.append("UnsafeFileError.info is not the verdict's to_dict()")
         if not nothing_ran(real):
-            return (f"refused ({name} > {DOC[thr]}) yet something ran: find_class={real['events']} "
-                    f"sink={real['sink']} unpickled={len(real['loads'])}")
-        return None
+            out.append(f"refused ({name}) yet something ran: find_class={real['events']} "
+                       f"sink={real['sink']} unpickled={len(real['loads'])}")
+        return out
     # returned, or raised something else
     if not may_return:
         if real["r"] == "RET":
-            return f"returned an object although the verdict {name} exceeds the accepted severity {DOC[thr]}"
-        if not nothing_ran(real):
-            return f"verdict {name} exceeds {DOC[thr]} yet something ran: find_class={real['events']} sink={real['sink']}"
-        return f"verdict {name} exceeds {DOC[thr]} but the error is {real.get('exc')}, not UnsafeFileError"
+            out.append(f"returned an object although the verdict {name} exceeds the accepted severity "
+                       f"{DOC[thr if arming != 'hook' else 0]} (find_class={real['events']} sink={real['sink']})")
+        elif not nothing_ran(real):
+            out.append(f"verdict {name} exceeds the accepted severity yet something ran: find_class={real['events']} "
+                       f"sink={real['sink']}")
+        else:
+            out.append(f"verdict {name} exceeds the accepted severity but the error is {real.get('exc')}, "
+                       f"not UnsafeFileError")
+        return out
     if real["loads"] != [prefix]:
-        return f"bytes executed {real['loads']!r:.100} are not the bytes analysed {prefix[:60]}"
+        out.append(f"bytes executed {real['loads']!r:.100} are not the bytes analysed {prefix[:60]}")
     got = ["val", real["value"]] if real["r"] == "RET" else ["exc", real.get("exc")]
     if got != ref["stock"]:
-        return f"result {got!r:.100} differs from the stock unpickler's {ref['stock']!r:.100} on the analysed bytes"
+        out.append(f"result {got!r:.100} differs from the stock unpickler's {ref['stock']!r:.100} on the analysed bytes")
     if real["events"] != ref["stock_events"] or real["sink"] != ref["stock_sink"]:
-        return f"effects {real['events']} / sink {real['sink']} differ from the stock unpickler's {ref['stock_events']}"
-    return None
+        out.append(f"something ran that was not in the analysed bytes: find_class {real['events']} / sink calls "
+                   f"{real['sink']}; the stock unpickler on the analysed bytes: {ref['stock_events']} / {ref['stock_sink']}")
+    return out
 
 
 def summarise(case, real):
@@ -519,6 +544,22 @@ def main(tier, seed):
                 "threshold argument); prefix / trailing data (incl. a sink-calling second pickle) at random. "
                 "A case is non-trivial when the verdict is above LIKELY_SAFE or analysis/parse fails; distinct by "
                 "(input label, arming, threshold, stream kind, outcome)")
+    chk.extra["assumptions"] = [
+        "Print Assumptions: every C02 theorem is closed under the global context (no axioms)",
+        "the stock unpickler, pickletools' argument decoding, constant repr and is_std_module are Section variables of "
+        "every theorem (the theorems hold for ALL of them); in the correspondence they are instantiated with RefVM on "
+        "the abstract program, harness/vmlib.abstract_ops, ast.unparse and fickle.is_std_module",
+        "the caller's stream is modelled as a content oracle indexed by PHASE of the call (during Pickled.load / during "
+        "check_safety / at unpickling time); a stream whose content changes between two reads INSIDE Pickled.load is "
+        "outside the model and outside C02's quantifier (coverage.observations reproduces it on the real code)",
+        "the parse itself is Codec.load_model (C06: reader widths written from CPython 3.12 pickletools; argument "
+        "content validation enters through [decode]); the verdict is Analysis.analyze + verdict (C04/C19 tie)",
+        "loader.load's print_results / json_output_path / *args / **kwargs are not modelled (defaults only)",
+        "the ML environment (pickle.loads rebound) is excluded by the hypothesis g_ml = None of C02_armed_equiv (C07/C12)",
+    ]
+    chk.extra["bounds"] = {"theorems": "none (all streams, offsets, contents, thresholds, histories)",
+                           "correspondence": "generated inputs x 6 thresholds x 9 stream kinds x 5 arming forms x "
+                                             "9 earlier hook histories (sampled in quick, product for the ladder)"}
     built = chk.regen_and_build(["proofs/LoaderProofs.vo"])
     if built:
         chk.prove()
@@ -546,7 +587,7 @@ def main(tier, seed):
                        not mism and len(sevs) == 6, json.dumps(mism[:4]))
             bad += mism
         # ---- loads ----
-        n_inputs = 110 if tier == "quick" else 900
+        n_inputs = 220 if tier == "quick" else 3000
         inputs = gen_inputs(chk.rng, n_inputs)
         cases = make_cases(chk.rng, inputs, tier)
         reals = run_children(cases, scratch)
@@ -623,9 +664,7 @@ def main(tier, seed):
 
             def prio(cw):
                 c, w = cw
-                grave = 0 if ("something ran" in w or "returned an object although" in w
-                              or "after the analysis pass" in w or "not the bytes analysed" in w) else 1
-                return (grave, order.get(c["id"], len(cases)), c["id"])
+                return (gravity(w), order.get(c["id"], len(cases)), c["id"])
             if failing:
                 c, w = min(failing, key=prio)
                 return public_case(c, w)
